@@ -60,6 +60,24 @@ def accumulate_exact(entries, alpha):
     return e / alpha, edge
 
 
+def no_break_possible(entries, alpha):
+    """premise of C14_exact_when_no_break (entries in dictionary order, sorted stably like the code does): alpha is not
+    isclose to 1 and after every non-empty prefix of the value-sorted states that does not yet reach alpha the missing
+    mass is larger than the isclose tolerance, so the accumulation can only stop by reaching alpha exactly.  Then the
+    result IS the definition (no resolution allowance); in particular for alpha below every probability it is the
+    smallest value (C14_exact_below_smallest_probability)."""
+    if isclose_q(alpha, Fraction(1))[0]:
+        return False
+    g = Fraction(0)
+    for p, _ in sorted(entries, key=lambda e: e[1]):
+        g += p
+        if g >= alpha:
+            return True
+        if alpha - g <= ATOL + RTOL * alpha + EDGE:
+            return False
+    return False  # the mass never reaches alpha (float probabilities summing to slightly less than alpha)
+
+
 def bounds(entries, alpha):
     """(bound operator path, bound bitstring path) on |result - cvar|: the resolution of DESIGN.md C14"""
     vs = [v for _, v in entries]
@@ -256,6 +274,9 @@ def entries_of(case, exact=True):
     return [((Fraction(c, shots) if exact else Fraction(c / shots)), value_of(case["op"], int(k, 2))) for k, c in case["counts"]]
 
 
+ALPHA_TINY = [1e-12, 1e-10, 1e-9, 5e-9, 1e-8, 2e-8, 1e-7, 1e-6]
+
+
 def gen_alphas(rng, case):
     shots = case["shots"]
     ent = sorted(entries_of(case), key=lambda e: e[1])
@@ -294,6 +315,8 @@ def gen_case(rng, big=False):
     if parts:
         case["op_parts"] = parts
     case["alphas"] = gen_alphas(rng, case)
+    if rng.random() < 0.15:  # tail fractions far below every probability (and below numpy's atol): the value is the minimum
+        case["alphas"] = sorted(rng.sample(ALPHA_TINY, rng.randint(2, 4)))
     r = rng.random()
     if r < 0.04:
         case["alphas"] = [rng.choice(ALPHA_OUTSIDE)]
@@ -359,6 +382,17 @@ def do_agg(ctx, case, glits, kept):
             continue
         c = cvar_exact(exact, a)
         b_op, b_bs = bounds(exact, a)
+        slack = FLOAT_SLACK * max(V, Fraction(1, 8))
+        if no_break_possible(as_float, a):
+            # sharper clause (C14_exact_when_no_break / C14_exact_below_smallest_probability): exact equality with the
+            # definition on the float probabilities, up to float rounding (the last take alpha - gathered is rounded)
+            c, b_op, b_bs = cvar_exact(as_float, a), Fraction(0), Fraction(0)
+            slack += Fraction(1, 10**15) / a * max(V, Fraction(1, 8))
+            ctx.tally("oracle:exact-clause")
+            if all(a <= p for p, _ in as_float):
+                ctx.tally("oracle:alpha-below-every-probability")
+        else:
+            ctx.tally("oracle:resolution-bound")
         ok = True
         for r, b, path in zip(res, (b_op, b_bs), ("operator", "bitstring")):
             if isinstance(r, tuple):
@@ -366,7 +400,8 @@ def do_agg(ctx, case, glits, kept):
                 ok = False
             elif abs(Fraction(r) - c) > b + slack:
                 ctx.violation("oracle", f"{path}-path-off-definition",
-                              f"{path} path returns {r} for alpha={alpha}; the mean over the lowest-valued alpha mass is {float(c)} (allowed resolution {float(b):.3e})", sub,
+                              f"{path} path returns {r} for alpha={alpha}; the mean over the lowest-valued alpha mass is {float(c)} "
+                              + (f"(allowed resolution {float(b):.3e})" if b else "(exactly: the accumulation reaches alpha without a tolerance break)"), sub,
                               detail=dict(cvar=c, bound=b))
                 ok = False
         if ok:
@@ -444,7 +479,7 @@ def run(ctx):
     ctx.rule = ("distributions from shot counts (shots in {1,2,4,8,10,100,1000,1024} and 1e5/1e6 for the tolerance branch; 1..2^n outcomes, n<=4, random dictionary order, ties) x diagonal "
                 "SparsePauliOp with small dyadic coefficients (families: distinct strings, single Z, duplicate strings, cancelling duplicates, repeated identity, unsimplified SparsePauliOp.sum, complex "
                 "coefficients with zero imaginary part; a state's value is the sum over all terms) and its diagonal as bitstring function x 2-5 alphas from {1, 1/2, 1/4, 0.1, 1-1e-7, 0.99999, c/shots, prefix masses of the "
-                "sorted distribution and values just beside them, random}; every boundary value of alpha (0, -0.0, tiny negatives, 1+ulp, >1; int/float/numpy) on both functions and both evaluator constructors expecting ValueError; both paths per alpha; distinct = distinct (distribution, operator, alphas); non-trivial = at least two outcomes")
+                "sorted distribution and values just beside them, random}; a tiny-alpha family {1e-12 .. 1e-6} (below every probability: the exact minimum is demanded); every boundary value of alpha (0, -0.0, tiny negatives, 1+ulp, >1; int/float/numpy) on both functions and both evaluator constructors expecting ValueError; both paths per alpha; distinct = distinct (distribution, operator, alphas); non-trivial = at least two outcomes")
     cases = []
     cdir = core.ROOT / "corpus" / "C14"
     for fpath in sorted(cdir.glob("*.json")) if cdir.exists() else []:
